@@ -979,14 +979,28 @@ from vlib.isolate import run_in_fork  # noqa: E402
 HISTORY_CALLS = ['csch(0)', 'csch([2])', 'cot(0)', 'ln(0)', 'log10(0)', 'exp(1000)', 'sinh(1000)', 'sech(1000)',
                  'csch(1000)', 'arccosh(0.5)', 'arcsec(0.5)', 'arccsc(0.5)', 'arccoth(0.5)', 'arcsech(2)',
                  'arcsin(2)', 'sqrt(-4)', 'tan(pi/2)', 'coth(0)', 'arctan2(0,0)', 'sec(0)', 'abs(-3)', 'sin(1)',
-                 'det([[1,2],[2,4]])', 'norm([1e200,1e200])', 'arctanh(1)', 'arccot(0)', 'floor(1e300)', '1/sin(0)']
+                 'det([[1,2],[2,4]])', 'norm([1e200,1e200])', 'arctanh(1)', 'arccot(0)', 'floor(1e300)', '1/sin(0)',
+                 # the same text evaluated with another function table (expr@table): the Formula/Numerical table (np.abs:
+                 # a vector is a shape error there), and a table in which an author has replaced default functions
+                 # (degrees-mode sin, a constant sqrt) - a seeded change cached constant expressions by their text alone
+                 'abs([3,4])', 'abs([3,4])@formula', 'abs(-3)@formula', 'sin(30)@override', 'sin(30)@formula', 'sin(30)',
+                 'sin(1)@override', 'sqrt(4)@override', 'sqrt(4)@formula', 'sqrt(4)', 'norm([3,4])', 'exp(2)@override',
+                 'exp(2)@formula', 'cos(0)+sin(30)@override', 'cos(0)+sin(30)@formula']
 
 
 def _history_eval(expr):
     from mitxgraders import MatrixGrader
     from mitxgraders.helpers.calc import evaluator as _ev
+    from mitxgraders import FormulaGrader
+    expr, _, table = expr.partition('@')
+    funcs = MatrixGrader.default_functions
+    if table == 'formula':
+        funcs = FormulaGrader.default_functions
+    elif table == 'override':
+        funcs = dict(FormulaGrader.default_functions, sin=lambda x: math.sin(math.radians(x)), sqrt=lambda x: 7.25,
+                     exp=lambda x: x + 1000.0)
     try:
-        v = _ev(expr, {'pi': math.pi, 'e': math.e, 'i': 1j}, MatrixGrader.default_functions, {}, max_array_dim=2)[0]
+        v = _ev(expr, {'pi': math.pi, 'e': math.e, 'i': 1j}, funcs, {}, max_array_dim=2)[0]
         return ('ok', repr(np.asarray(v).tolist()))
     except MITxError as e_:
         return ('exc', type(e_).__name__, str(e_)[:160])
